@@ -52,6 +52,23 @@ def obs(m):
     return out
 
 
+def _refs(expr, M):
+    """variables and derivatives an expression refers to (a derivative counts as one reference)"""
+    import sympy
+    out = set()
+
+    def walk(e):
+        if isinstance(e, sympy.Derivative):
+            out.add(e)
+        elif isinstance(e, M.Variable):
+            out.add(e)
+        else:
+            for a in getattr(e, 'args', ()):
+                walk(a)
+    walk(expr)
+    return out
+
+
 def run_oracle(case):
     """instrumented run: returns list of (what, detail)"""
     bad = []
@@ -99,6 +116,22 @@ def run_oracle(case):
                             % (op, v, seen[id(v)], eq), {'op_index': j}))
                 break
             seen[id(v)] = eq
+        # the number-substituted graph has exactly the edges its own equations justify (a derivative is one reference:
+        # its state and free variable are not referenced by it)
+        try:
+            ng = im.model.graph_with_sympy_numbers
+            for node, data in ng.nodes.items():
+                eqn = data.get('equation')
+                if eqn is None:
+                    continue
+                want = {str(r_) for r_ in _refs(eqn.rhs, im.M) if r_ in ng.nodes}
+                got = {str(p_) for p_ in ng.pred[node]}
+                if want != got:
+                    bad.append(('after %r the number-substituted graph has edges into %s from %s, but its equation %s refers to %s'
+                                % (op, node, sorted(got), eqn, sorted(want)), {'op_index': j}))
+                    break
+        except Exception:
+            pass
         try:
             fo, co = fresh_obs(im)
         except Exception as e:
